@@ -152,7 +152,7 @@ Theorem ea_observation_satisfies_spec b d1 d2 unrooted f1 f2 bt :
 Proof.
   intros W W1 W2.
   unfold c07_holds, record_obs. cbv zeta.
-  cbn [c_obs c_ref1 c_ref2 o_before o_nav1 o_nav1_again o_after o_nav2 o_nb1 o_nb2 o_nr1 o_nr2].
+  cbn [c_obs c_ref1 c_ref2 o_before o_nav1 o_nav1_again o_after o_nav2 o_nb1 o_nb2 o_nr1 o_nr2 o_ref1 o_ref2].
   rewrite (ea_base_in_domain b W), (ref_in_domain_wf d1 W1), (ref_in_domain_wf d2 W2).
   rewrite (ea_normalize_spec b W), normalize_idem, !str_eqb_refl.
   destruct W1 as [Wd1|Wd1].
